@@ -401,7 +401,7 @@ def origins(n, env, adapters=ADAPTERS, extra=None, depth=0, seen=None, sel=(), a
                         for o in body_o:
                             if o[0] == "closure_param" and o[1] == f["def"]:
                                 for ro in recv_o:
-                                    out.add(ro + tuple(o[3:]) if ro[0] in ("param", "local") else ro)
+                                    out.add(ro + tuple(o[3:]) if ro[0] in ("param", "local", "call", "closure_param") else ro)
                             else:
                                 out.add(o)
                         return out
